@@ -40,7 +40,8 @@ pub struct HllCase {
 
 fn hll_case() -> impl Strategy<Value = HllCase> {
     (
-        4u8..=14,
+        // rare: lg_k 17..=21, where coupon sets reach 2^14 slots and more
+        prop_oneof![40 => 4u8..=14, 1 => 17u8..=21],
         0u8..3,
         proptest::collection::vec((0u32..(1 << 26), value_strategy()), 0..40),
         prop_oneof![3 => 0u32..=12, 3 => 0u32..=3000, 1 => 0u32..=40_000],
@@ -199,8 +200,34 @@ fn hll_images(c: &HllCase, info: &mut CaseInfo) -> Result<(), Fail> {
             ensure!(st.registers == mm.regs, "C13.hll.update_after_deserialize", "{ctx}: after follow-up op #{i} {op:?}: registers differ from the model");
         }
     }
+    // every coupon the image held is still found at its place: offering it again changes nothing (a set adopted
+    // slot for slot from an updatable image must be probed the way the foreign writer filled it)
+    {
+        let st0 = d.verif_state();
+        if st0.mode < 2 {
+            let step = (mm.coupons.len() / 400).max(1);
+            for cp in mm.coupons.iter().step_by(step) {
+                d.verif_update_with_coupon(*cp);
+            }
+            let st = d.verif_state();
+            if st.mode < 2 {
+                let slots: Vec<u32> = st.coupon_slots.iter().copied().filter(|&x| x != 0).collect();
+                let distinct: BTreeSet<u32> = slots.iter().copied().collect();
+                ensure!(
+                    slots.len() == distinct.len() && distinct == mm.coupons && st.coupon_count == mm.coupons.len(),
+                    "C13.hll.duplicate_after_deserialize",
+                    "{ctx}: after re-offering coupons the image already held: {} occupied slots, {} distinct, container count {}, model {}",
+                    slots.len(),
+                    distinct.len(),
+                    st.coupon_count,
+                    mm.coupons.len()
+                );
+            }
+        }
+    }
     info.label(format!("hll:{variant}"));
-    if tgt == 0 && mode == 2 && m.regs.iter().any(|&r| r - m.regs.iter().min().unwrap() >= 15) {
+    let reg_min = m.regs.iter().min().copied().unwrap_or(0);
+    if tgt == 0 && mode == 2 && m.regs.iter().any(|&r| r - reg_min >= 15) {
         info.label(format!("hll4_aux:{}", if c.compact { "list" } else { "table" }));
     }
     // variants this crate never writes itself
